@@ -26,7 +26,7 @@ func init() {
 			"error text is not inspected; loader failures other than not-found must surface even under ignore missing",
 			"documented tolerances (undefined variables and attributes print as empty, ignore missing) must keep working and are checked as the converse",
 		},
-		quick: 40000, thorough: 300000, minQuick: 5000, minThorough: 100000,
+		quick: 40000, thorough: 1200000, minQuick: 5000, minThorough: 100000,
 	}})
 }
 
